@@ -83,3 +83,20 @@ CHECKS['C18'] = {
             'currently registered object in registration order with (scheduler, object, now, state), and when time advances no due '
             'change may be outstanding.',
 }
+
+CHECKS['C19'] = {
+    'harnesses': ['harness.c19_sensors'],
+    'text': 'Bounded model checking of the real PeriodicSensor / OutputPartSensor / Cms: symbolic interval, horizon, attribute-change instant and '
+            'values, data capacities 1..3 and unbounded; the k-th measurement must lie at k*interval, store copies of the probed values of that '
+            'moment, call both callbacks once in order, keep every probe series and the time series at the most recent min(count, c) aligned '
+            'entries, reach a doubly registered Cms once; the output-part sensor must measure the first finished part and every (n+1)-th.',
+}
+
+CHECKS['C20'] = {
+    'harnesses': ['harness.c20_lifecycle'],
+    'text': 'Bounded model checking of System/Asset lifecycle on the real classes: enumerated sequences of system creation, asset creation '
+            'and simulate calls (registration with the latest system, RuntimeError for an outdated one, exactly one initialisation, '
+            'find_assets against a reference filter) and, for every Asset class found by introspection, a cell created at a symbolic '
+            'instant from inside an event or between two simulate calls whose observations must equal those of a twin created before the '
+            'start, shifted by the creation instant.',
+}
